@@ -7,7 +7,8 @@ TEXT = ('A spatial track without a resolvable listener writes Frame::ZERO for ev
         'generation-checked arena; spatialization_strength is clamped to [0,1] before 1 - strength and the ear gain is '
         'min + (1 - min)·v; the distance range is only used by clamp(min,max) and /(max-min) after an ordering test of the two '
         'bounds; the spatial info is inherited by child tracks and feeds Info::listener_distance. Monotonicity, symmetry and '
-        'gain bounds are relations between renderings and are not decided.')
+        'gain bounds are relations between renderings and are not decided.'
+        ' Inside the spatial branch the per-frame listener loop cannot be skipped.')
 TECHNIQUE = 'MIR path / operand-flow rules'
 
 TRACK = 'track::sub::Track'
@@ -48,6 +49,28 @@ def run(ctx, R, tier):
                 ok = len(zero) == 1 and sp[0][0] not in reach and not calls
                 why = 'without a listener the frame is not set to Frame::ZERO (stores: %d, calls: %s)' % (len(zero), calls)
         R.check(ok, 'B.C15.nolistener', 'Track::process', why, detail='listener_info() == None => *frame = Frame::ZERO', where=tb.where(lb))
+        # ... and that per-frame test cannot be skipped: inside the spatial branch (the Some edge of the test on
+        # self.spatial_data) every path to the code after the branch passes the header of the loop that asks for the listener
+        from ..paths import switch_info
+        from ..rules import must_pass
+        ent = None
+        for x in range(tb.n):
+            t = tb.blocks[x]['term']
+            if t['k'] == 'switch' and not tb.blocks[x]['cleanup']:
+                desc, labels, dplace = switch_info(tb, x)
+                if dplace and dplace.endswith('spatial_data') and set(labels.values()) >= {'Some', 'None'}:
+                    tg = dict((labels.get(v, v), b) for v, b in t['targets'])
+                    some_t = tg.get('Some', t['otherwise'] if 'None' in tg else None)
+                    none_t2 = tg.get('None', t['otherwise'] if 'Some' in tg else None)
+                    if some_t is not None and none_t2 is not None:
+                        ent = (some_t, none_t2)
+        if R.check(ent is not None and tb.in_loop(lb), 'B.C15.nolistener', 'anchor:spatial-branch', 'the `if let Some(spatial_data)` branch of Track::process was not found'):
+            L = min(tb.in_loop(lb), key=lambda l: len(l['blocks']))
+            after = [x for x in tb.reachable([ent[1]]) if not tb.blocks[x]['cleanup']]
+            R.check(must_pass(tb, [ent[0]], after, [L['header']]), 'B.C15.nolistener', 'not-skippable',
+                    'a spatial track can leave its spatial branch without running the per-frame loop that silences it when the listener '
+                    'does not exist (and attenuates / pans it when it does)', detail='spatial branch => per-frame listener loop on every path',
+                    where=tb.where(L['header']))
     lb = None
     for b in F.bodies:
         if b.path.startswith("info::Info::<'a>::listener_info") and b.krate == 'kira':
